@@ -13,7 +13,8 @@ from vlib.runner import Result, SubCheck, Violation
 
 PROPERTY = "C17"
 LEVEL = "fault_enumeration"
-RULE = ("Fault injection into generated valid histories (every policy pair): at generated positions one call from a "
+RULE = ("Length mismatches also as Series / DataFrame / ndarray contexts. A rejected call of a listed class must not move any random stream of the bandit (only a prediction rejected for its column count may). "
+        "Fault injection into generated valid histories (every policy pair): at generated positions one call from a "
         "catalogue of rejected calls applicable to the bandit's current state is made - invalid __init__ arguments "
         "(while the bandit is alive), fit/partial_fit (wrong container types, length mismatches, None/NaN/Inf "
         "reward, non-binary reward for Thompson, contexts missing / superfluous / not 2-D, different column count in "
